@@ -1,0 +1,37 @@
+//go:build verif
+
+package dials
+
+import (
+	"reflect"
+
+	"github.com/vimeo/dials/internal/verifhook"
+)
+
+// VerifSetHook installs the function called at every verifhook.Point.
+// (only present with the verif build tag)
+func VerifSetHook(f func(name string, args ...any)) {
+	verifhook.Set(f)
+}
+
+// VerifCompose runs the real compose over a defaults pointer and a sequence
+// of source values, for config types built with reflect.StructOf (which
+// cannot be used as a type argument).
+func VerifCompose(defaultsPtr any, layers []reflect.Value) (any, error) {
+	svs := make([]sourceValue, len(layers))
+	for i, l := range layers {
+		svs[i] = sourceValue{value: l}
+	}
+	return compose(defaultsPtr, svs)
+}
+
+// VerifDeepCopy runs the real deep copier on v.
+func VerifDeepCopy(v reflect.Value) reflect.Value {
+	return deepCopyValue(v)
+}
+
+// VerifMonitorDone returns the channel that is closed when d's monitor
+// goroutine has exited (nil if d never had one).
+func VerifMonitorDone[T any](d *Dials[T]) <-chan struct{} {
+	return d.monDone
+}
